@@ -296,11 +296,6 @@ def parseChunks (s : String) : Option (List (Nat × Nat)) :=
 def showChunks (cs : List (Nat × Nat)) : String :=
   if cs.isEmpty then "-" else ",".intercalate (cs.map fun (a, b) => s!"{a}-{b}")
 
-/-- executable statement: sorted chunks tile `[0, n)` without gap or overlap, none empty -/
-def tiles (n : Nat) : Nat → List (Nat × Nat) → Bool
-  | pos, [] => pos == n
-  | pos, (a, b) :: rest => a == pos && a < b && tiles n b rest
-
 def handleMP (inp : List String) (obs : String) : Verdict :=
   match inp with
   | [_, n, t, mc, errAt] =>
